@@ -693,3 +693,54 @@ Proof.
   end.
   now rewrite concat_map_flat_map.
 Qed.
+
+(* ---------------------------------------------------------------------------------------------- *)
+(* `object` is always last in CPython's order: on the domain the reference MRO already has it so     *)
+(* ---------------------------------------------------------------------------------------------- *)
+Lemma filter_notin_id : forall (l : list nat) a, ~ In a l ->
+  filter (fun k => negb (Nat.eqb k a)) l = l.
+Proof.
+  induction l as [|y l IH]; intros a H; simpl; [reflexivity|].
+  destruct (Nat.eqb_spec y a) as [->|_]; [elim H; now left|]. simpl. f_equal. apply IH.
+  intros Q. apply H. now right.
+Qed.
+
+Lemma mro_real_domain : forall T c, in_domain T c = true -> In obj (dfs T c) ->
+  mro_real T c = mro T c.
+Proof.
+  intros T c D Hin. unfold in_domain in D. apply andb_true_iff in D. destruct D as [ND OL].
+  unfold mro_real. rewrite (mro_domain T c ND). unfold object_last in OL.
+  apply negb_true_iff in OL.
+  assert (Hn : ~ In obj (removelast (dfs T c))) by (rewrite <- memb_In, OL; discriminate).
+  assert (NE : dfs T c <> []) by (intros Q; rewrite Q in Hin; destruct Hin).
+  pose proof (app_removelast_last obj NE) as Hd.
+  remember (removelast (dfs T c)) as r eqn:Er.
+  assert (Hl : last (dfs T c) obj = obj).
+  { rewrite Hd in Hin. apply in_app_iff in Hin. destruct Hin as [Hin|[Hl|[]]]; [now elim Hn | exact Hl]. }
+  rewrite Hl in Hd. rewrite Hd. rewrite filter_app, filter_notin_id by exact Hn.
+  cbn. now rewrite app_nil_r.
+Qed.
+
+Lemma find_app_some : forall {A} (p : A -> bool) l1 l2 k, find p l1 = Some k -> find p (l1 ++ l2) = Some k.
+Proof.
+  induction l1 as [|a l1 IH]; intros l2 k H; simpl in *; [discriminate|].
+  destruct (p a); [exact H | now apply IH].
+Qed.
+
+(* a definition found by the reference lookup is the one CPython's order (object last) finds *)
+Theorem class_lookup_real : forall T c x s, in_domain T c = true ->
+  py_class_lookup T c x = Some s -> py_class_lookup_real T c x = Some s.
+Proof.
+  intros T c x s D H. unfold py_class_lookup_real.
+  destruct (in_dec Nat.eq_dec obj (dfs T c)) as [Hin|Hout].
+  - rewrite mro_real_domain by assumption. exact H.
+  - unfold py_class_lookup in H. unfold mro_real.
+    assert (Hm : ~ In obj (mro T c)) by (unfold mro; rewrite dedup_In; exact Hout).
+    rewrite filter_notin_id by exact Hm.
+    destruct (find (defines T x) (mro T c)) as [k|] eqn:F; [|discriminate].
+    match goal with
+    | |- match ?X with _ => _ end = _ =>
+        replace X with (Some k) by (symmetry; exact (find_app_some _ _ [obj] k F))
+    end.
+    exact H.
+Qed.
